@@ -45,6 +45,13 @@ class InBase(plumpy.Process):
         spec.output_namespace('on', dynamic=True)
         spec.outputs.dynamic = True
 
+    # the documented hooks for putting inputs / outputs into a bundle: a real (invertible, non-identity) codec
+    def encode_input_args(self, inputs: Any) -> Any:
+        return {'encoded-by-hook': copy.deepcopy(inputs)}
+
+    def decode_input_args(self, encoded: Any) -> Any:
+        return copy.deepcopy(encoded['encoded-by-hook'])
+
 
 INPUTS: Tuple[Optional[dict], ...] = (None, {'b': [1, {'k': 'v'}]}, {'a': 9, 'ns': {'x': 'given', 'dyn': 3}, 'extra': {'deep': {'er': 1}}})
 
